@@ -25,12 +25,57 @@ class AnalysisError(Exception):
     """The analysis itself is broken (anchor vanished, parse error, floor not met)."""
 
 
+def _loop_as_comprehension(a: ast.stmt, lp: ast.stmt) -> ast.stmt | None:
+    if not (isinstance(a, ast.Assign) and len(a.targets) == 1 and isinstance(a.targets[0], ast.Name) and isinstance(lp, ast.For) and not lp.orelse):
+        return None
+    acc = a.targets[0].id
+    v = a.value
+    kind = None
+    if isinstance(v, ast.List) and not v.elts:
+        kind = "list"
+    elif isinstance(v, ast.Dict) and not v.keys:
+        kind = "dict"
+    elif isinstance(v, ast.Call) and isinstance(v.func, ast.Name) and v.func.id == "set" and not v.args and not v.keywords:
+        kind = "set"
+    if kind is None:
+        return None
+    body = lp.body
+    ifs: list[ast.expr] = []
+    while len(body) == 1 and isinstance(body[0], ast.If) and not body[0].orelse:
+        ifs.append(body[0].test)
+        body = body[0].body
+    if len(body) != 1:
+        return None
+    st = body[0]
+    comp: ast.expr | None = None
+    gen = ast.comprehension(target=lp.target, iter=lp.iter, ifs=ifs, is_async=0)
+    if kind in ("list", "set") and isinstance(st, ast.Expr) and isinstance(st.value, ast.Call) and isinstance(st.value.func, ast.Attribute) and isinstance(st.value.func.value, ast.Name) and st.value.func.value.id == acc and st.value.func.attr == ("append" if kind == "list" else "add") and len(st.value.args) == 1 and not st.value.keywords:
+        comp = ast.ListComp(elt=st.value.args[0], generators=[gen]) if kind == "list" else ast.SetComp(elt=st.value.args[0], generators=[gen])
+    elif kind == "dict" and isinstance(st, ast.Assign) and len(st.targets) == 1 and isinstance(st.targets[0], ast.Subscript) and isinstance(st.targets[0].value, ast.Name) and st.targets[0].value.id == acc:
+        comp = ast.DictComp(key=st.targets[0].slice, value=st.value, generators=[gen])
+    if comp is None:
+        return None
+    # the accumulator must not be read by the comprehension itself; no await/yield inside
+    for x in ast.walk(comp):
+        if isinstance(x, ast.Name) and x.id == acc:
+            return None
+        if isinstance(x, (ast.Await, ast.Yield, ast.YieldFrom)):
+            return None
+    ast.copy_location(comp, lp)
+    new = ast.Assign(targets=a.targets, value=comp)
+    ast.copy_location(new, a)
+    new.end_lineno, new.end_col_offset = getattr(lp, "end_lineno", None), getattr(lp, "end_col_offset", None)
+    ast.fix_missing_locations(new)
+    return new
+
+
 def normalize_tree(tree: ast.Module) -> int:
     """Normal form the rules are written against (semantics-preserving, applied once per parse):
 
     ``t = <expr>; return t`` with ``t`` occurring nowhere else in the function  ->  ``return <expr>``
     ``if a:`` whose whole body is ``if b: X`` (no else on either)                ->  ``if a and b: X``
     ``<constant> == x`` / ``<constant> != x``                                    ->  ``x == <constant>`` / ``x != <constant>``
+    ``x = []; for v in it: [if c:] x.append(e)`` (also set()/add, {}/x[k] = e)    ->  ``x = [e for v in it if c]``
 
     The expression keeps its source position, so reports still point at it.  Returns the
     number of rewrites."""
@@ -49,6 +94,19 @@ def normalize_tree(tree: ast.Module) -> int:
                 n.test, n.body = new_test, inner.body
                 n_rw += 1
                 changed = True
+    # ``x = []; for v in it: [if c:] x.append(e)``  ->  ``x = [e for v in it if c]`` (also set()/add, {}/x[k] = e)
+    for holder in list(ast.walk(tree)):
+        for fld in ("body", "orelse", "finalbody"):
+            lst = getattr(holder, fld, None)
+            if not isinstance(lst, list):
+                continue
+            k = 0
+            while k + 1 < len(lst):
+                comp = _loop_as_comprehension(lst[k], lst[k + 1])
+                if comp is not None:
+                    lst[k : k + 2] = [comp]
+                    n_rw += 1
+                k += 1
     # ``<constant> == x`` -> ``x == <constant>`` (likewise !=)
     for n in ast.walk(tree):
         if isinstance(n, ast.Compare) and len(n.ops) == 1 and isinstance(n.ops[0], (ast.Eq, ast.NotEq)) and isinstance(n.left, ast.Constant) and not isinstance(n.comparators[0], ast.Constant):
